@@ -2068,6 +2068,14 @@ class TypeBlocks(ContainerOperand):
                 columns += b.shape[1]
             blocks.append(b)
 
+        if not blocks:
+            # column_key selected no columns: no dtype to resolve, and rows cannot be taken from a block
+            array = np.empty((self._shape[0], 0), dtype=self._row_dtype)
+            if row_key is not None:
+                array = array[row_key]
+            array.flags.writeable = False
+            return array
+
         row_dtype = resolve_dtype_iter(b.dtype for b in blocks)
         row_multiple = row_key is None or isinstance(row_key, KEY_MULTIPLE_TYPES)
 
